@@ -253,4 +253,28 @@ theorem ack_after_deflate (k : CCKind) (c : CCState ℚ) (rtt now : ℚ) :
     unfold CongestionControl.dupack_over
     simp
 
+/-- counting a new ACK never touches `ssthresh`, and in slow start it adds one MSS, for both classes -/
+theorem ack_plain {k : CCKind} {c : CCState ℚ} (h : CCInv k c) (rtt now : ℚ) :
+    (CC.ackReceived k c rtt now).ssthresh = c.ssthresh ∧
+    (c.cwnd ≤ c.ssthresh → (CC.ackReceived k c rtt now).cwnd = c.cwnd + c.mss) := by
+  cases k with
+  | reno =>
+    show (TCPReno.ack_received c rtt now).ssthresh = _ ∧ (_ → (TCPReno.ack_received c rtt now).cwnd = _)
+    unfold TCPReno.ack_received
+    constructor
+    · split_ifs <;> rfl
+    · intro hss; simp [hss]
+  | cubic =>
+    show (TCPCubic.ack_received c rtt now).ssthresh = _ ∧ (_ → (TCPCubic.ack_received c rtt now).cwnd = _)
+    have hpos : 0 < c.cwnd := lt_of_lt_of_le h.mss_pos h.cwnd_ge
+    have hW' : ¬ ({ c with d_min := dminNext c.d_min rtt } : CCState ℚ).cwnd <
+        ({ c with d_min := dminNext c.d_min rtt } : CCState ℚ).W_last_max := by
+      simp only [(h.cubic rfl).1]; exact not_lt.mpr hpos.le
+    rw [cubic_ack_eq]
+    constructor
+    · split_ifs with h1
+      · rfl
+      · simp only [cubic_update_eq _ now hW']; split_ifs <;> rfl
+    · intro hss; simp [hss]
+
 end TcpCC
